@@ -252,7 +252,7 @@ pub struct HistCase {
 }
 
 fn hist_strategy() -> impl Strategy<Value = HistCase> {
-    (0u8..=3, 0u8..=7, any::<u32>(), prop_oneof![1u16..=8, 1u16..=200, 1u16..=5000, Just(43_690u16)], 1u8..=53).prop_map(|(which, shape, seed, len, nsym)| HistCase { which, shape, seed, len, nsym })
+    (0u8..=3, prop_oneof![4 => 0u8..=7, 3 => 8u8..=9], any::<u32>(), prop_oneof![1u16..=8, 1u16..=200, 1u16..=5000, Just(43_690u16)], 1u8..=53).prop_map(|(which, shape, seed, len, nsym)| HistCase { which, shape, seed, len, nsym })
 }
 
 fn symbol_sequence(h: &HistCase) -> (Vec<u8>, u8, u8) {
@@ -276,6 +276,27 @@ fn symbol_sequence(h: &HistCase) -> (Vec<u8>, u8, u8) {
     }
     if h.shape % 8 == 7 {
         support = vec![(alpha - 1).min(support[0])];
+    }
+    if h.shape >= 8 {
+        // many codes of about the same (high) count beside many codes that occur once (shape 8) or
+        // one to three times (shape 9): the histogram does not fit the largest table, the rare
+        // codes cannot go below one state each and the frequent ones have to give way
+        let nf = 1 + r.below(support.len() as u64) as usize;
+        let base = 8 + r.below(1 + (h.len as u64 % 300)) as usize;
+        let mut counts: Vec<usize> = (0..support.len())
+            .map(|k| if k < nf { base + r.below(base as u64 / 8 + 1) as usize } else if h.shape == 8 { 1 } else { 1 + r.below(3) as usize })
+            .collect();
+        let mut data = vec![];
+        // round robin, so that the stream is not sorted by symbol
+        while counts.iter().any(|&c| c > 0) {
+            for (k, c) in counts.iter_mut().enumerate() {
+                if *c > 0 {
+                    *c -= 1;
+                    data.push(support[k]);
+                }
+            }
+        }
+        return (data, alpha, max_log);
     }
     let n = (h.len as usize).max(1);
     let mut data = Vec::with_capacity(n);
@@ -398,6 +419,8 @@ fn check_hist(h: &HistCase, ctx: &mut CaseCtx) -> CaseResult {
     ctx.feat_if(distinct == 1, "enc:single_symbol");
     ctx.feat_if(distinct == 1 && data[0] == 0, "enc:only_code_0");
     ctx.feat_if(log == max_log, "enc:log_at_maximum");
+    ctx.feat_if(h.shape >= 8, "enc:many_equally_frequent_beside_many_rare_codes");
+    ctx.feat_if(data.len() > (1usize << max_log) && counts.iter().filter(|&&c| c == 1).count() >= 8, "enc:histogram_exceeds_table_with_8+_singletons");
     ctx.nontrivial = distinct >= 2;
     let mut key = vec![h.which % 4, log];
     for s in 0..alpha as usize {
